@@ -13,8 +13,7 @@ EXTRA_TARGETS = ["Extract/ExtractHasher.vo", "Extract/ExtractCreators.vo"]
 AREAS = ["hasher", "creators"]
 CREATOR_KINDS = ["v1", "v1-align"]
 # Appendix B "creators" classes that concern the v1 creator (shared roots / piece layers do not exist in a v1 metafile)
-CREATOR_CLASSES = ["single file", "flat", "nested", "full-path order != per-directory order", "empty directory present",
-                   "creator v1", "creator v1-align"]
+CREATOR_CLASSES = ["single file", "flat", "nested", "full-path order != per-directory order", "empty directory present"]
 RULE = ("model tie: the extracted Coq model of Hasher (hasher_inputs) vs the real Hasher iterator on the same file-size "
         "tuples -- small scope (1..4 files, sizes 0..6, piece length 1..4; exhaustive in the thorough tier, sampled in quick) "
         "and generated real-granularity cases; unit correspondence of Model/Creators.v (create_v1 = MetaFile.__init__, "
